@@ -474,6 +474,21 @@ let monitors id (label : sx) (pre : istate) (post : istate) (dl : (n * n * n * r
         if not (ok_now || covered || persistent) then
           specviol id "c11_applied_without_ok" (Printf.sprintf "proposal %d-%d became APPLIED in a step without an OK answer of the device" t i)
       end;
+      (match find_assoc t qcfg, find_assoc t pcfg with
+       | Some c0, Some c1 ->
+         (* C05: a verdict is taken on the configuration as its predecessor left it *)
+         if p0.p_validate = Some Doing && p1.p_validate = Some Done && int_of_n p0.p_prev <> 0 && int_of_n c0.c_committed <> int_of_n p0.p_prev then
+             specviol id "c05_validated_before_predecessor_committed" (Printf.sprintf "proposal %d-%d validated while committed index is %s, its predecessor is %s" t i (sn c0.c_committed) (sn p0.p_prev));
+         (* C06: the index a rollback returns to is the index the configuration had when the change was validated *)
+         if p0.p_validate = Some Doing && p1.p_validate = Some Done then
+           (match p1.p_details with
+            | PChange _ -> if int_of_n p1.p_rbindex <> int_of_n c0.c_index then
+                specviol id "c06_rollback_index_not_recorded" (Printf.sprintf "proposal %d-%d recorded rollback index %s, the configuration was at index %s" t i (sn p1.p_rbindex) (sn c0.c_index))
+            | _ -> ());
+         (* C01: a proposal is COMMITTED only when the committed index covers it *)
+         if p0.p_commit = Some Doing && p1.p_commit = Some Done && int_of_n c1.c_committed < i then
+           specviol id "c01_committed_without_merge" (Printf.sprintf "proposal %d-%d is COMMITTED, committed index of the target is %s" t i (sn c1.c_committed))
+       | _ -> ());
       (* C07/C01: an abort that has started is never turned into a commit, and the other way round *)
       if p0.p_abort <> None && p1.p_abort = None then specviol id "c07_abort_forgotten" (Printf.sprintf "proposal %d-%d" t i);
       if p0.p_commit = Some Done && p1.p_commit <> Some Done then specviol id "c07_commit_forgotten" (Printf.sprintf "proposal %d-%d" t i)
